@@ -16,6 +16,11 @@ add("C16", "proof",
     "Go ints as unbounded Z (legal domain < 2^44); precondition total = sum of counts, counts >= 0; model/code agreement is differential (bounded, seeded); extraction by ExtrOcamlBasic only.",
     "Coq proof (invariants over the model) + extracted-model/Go differential correspondence", "5.6, 6/C16")
 
+add("C14", "proof",
+    "Theorems in coq/Properties/C14.v over the line-by-line models of DefaultOutputBitStream/DefaultInputBitStream (bit vectors as (value, length) numbers): WriteBit/WriteBits append exactly their bits in every reachable state; for every finite program over WriteBit/WriteBits and every buffer size, Written() equals the sum of the operation sizes at every step and after Close the byte image is the big-endian concatenation of the written bits padded with < 8 zero bits; closed streams refuse every operation whatever the sink does and the counter does not move. WriteArray/ReadArray fast paths and the read side are modelled line by line and executed against the Go code on every run (values, counters after every operation, sink bytes, sink call count), together with a bit-vector reference evaluated directly on the Go implementation; their theorems are not yet proved (stated as such).",
+    "Healthy sink, full-length source reads. Proved: writer side for WriteBit/WriteBits/Close/closed-state. Not proved (correspondence + reference only): WriteArray aligned/unaligned bulk paths, ReadBit/ReadBits/ReadArray. Models tied to the Go code differentially (bounded, seeded).",
+    "Coq proof (numeric bit-vector refinement of the accumulator/buffer model) + extracted-model/Go differential on random op programs", "5.1, 6/C14")
+
 NOT_YET = {}
 def main():
     props = [json.loads(l)["id"] for l in open(os.path.join(ROOT, "properties.jsonl"))]
